@@ -18,7 +18,12 @@ Sz == [host |-> "", path |-> Svc, zero |-> TRUE]
 MCSlotsW == {S1, Sz}
 \* b1 serves the route; then all traffic is moved to b2 while b1 stays in the table with weight 0
 MCTablesWeight == {[s \in Slots |-> IF s.zero THEN "" ELSE "b1"], [s \in Slots |-> IF s.zero THEN "b1" ELSE "b2"]}
-MCTablesFW == MCTablesWeight \cup {[s \in Slots |-> ""]}
+\* the same with a TLS upstream: backend s1 is reached through a grpcs:// target URL.  A stream to it lives across a
+\* clean-up pass, with or without its traffic being moved away first.
+MCBackendsTls == {"b1", "b2", "s1"}
+MCSchemeOf(b) == IF b = "s1" THEN "grpcs" ELSE IF b = "" THEN "" ELSE "grpc"
+MCTablesTls == {[s \in Slots |-> IF s.zero THEN "" ELSE "s1"], [s \in Slots |-> IF s.zero THEN "s1" ELSE "b2"]}
+MCTablesFW == MCTablesWeight \cup {[s \in Slots |-> ""]} \cup MCTablesTls
 MCSlots2 == {S1, S2}
 MCSlotsH == {S1, S2, S4, S5}
 MCSlots4 == {S1, S2, S3, S4, S5}
@@ -131,7 +136,7 @@ MCCallsFlap == {c \in Bidi({""}, {"one"}, {"send"}, {"some"}, {0}, {"echo"}) : ~
 MCTablesFlap == {[s \in Slots |-> IF s.host = "" THEN b ELSE ""] : b \in {"", "b1"}}
 
 -----------------------------------------------------------------------------
-TableJson(t) == {[host |-> s.host, path |-> s.path, be |-> t[s], zero |-> s.zero] : s \in {x \in Slots : t[x] # ""}}
+TableJson(t) == {[host |-> s.host, path |-> s.path, be |-> t[s], zero |-> s.zero, scheme |-> MCSchemeOf(t[s])] : s \in {x \in Slots : t[x] # ""}}
 StepJson(s) == IF s.op = "set" THEN [op |-> "set", table |-> TableJson(s.table)]
                ELSE IF s.op = "call" THEN [s EXCEPT !.tabs = [i \in DOMAIN s.tabs |-> TableJson(s.tabs[i])]]
                ELSE s
